@@ -509,7 +509,7 @@ func (c *FnCtx) evalObject(obj types.Object, env *Env) (TV, error) {
 		key := "G_" + mangle(o.Pkg().Path()+"."+o.Name())
 		c.g.heapSorts[key] = c.g.u.sortOf(o.Type())
 		gv := c.heap(env.st, key, c.g.u.sortOf(o.Type()))
-		c.sentinelFact(o.Name(), o.Type(), gv)
+		c.sentinelFactPkg(o.Pkg().Path(), o.Name(), o.Type(), gv)
 		return TV{gv, o.Type()}, nil
 	}
 	return TV{}, fmt.Errorf("cannot use %s in a spec", obj.Name())
